@@ -99,6 +99,9 @@ def run_tree(args):
         src_variants = [([], "", True)]  # (argv, src-relative channel list marker, recursive)
         src_variants.append((["--only"], "", False))
         src_variants.append((["-c", chans[0]], [chans[0]], True))
+        src_variants.append((["-c", chans[0] + "/"], [chans[0]], True))        # as shell completion writes it
+        src_variants.append((["-c", "./" + chans[0], "--only"], [chans[0]], False))
+        src_variants.append((["SYMLINKED_SOURCE"], "", True))                     # source reached through a symlinked directory
         if len(chans) > 1:
             src_variants.append((["-c", chans[0], "-c", chans[1]], chans[:2], True))
             src_variants.append((["-c", "%s, %s" % (chans[0], chans[1]), "--only"], chans[:2], False))
@@ -112,7 +115,12 @@ def run_tree(args):
                     dest = os.path.join(root, "d%d" % n)
                     T.make_tree(src, spec)
                     os.makedirs(dest)
-                    before = tree_digest(src)
+                    real_src = src
+                    if sargv == ["SYMLINKED_SOURCE"]:
+                        link = os.path.join(root, "l%d" % n)
+                        os.symlink(src, link)
+                        src, sargv = link, []
+                    before = tree_digest(real_src)
                     pairs = [(os.path.join(src, c), os.path.join(dest, c)) for c in chlist] if chlist else [(src, dest)]
                     expected = {}
                     try:
@@ -139,7 +147,7 @@ def run_tree(args):
                         continue
                     part["evaluations"] += 1
                     part["transitions"] += 1
-                    after_src = tree_digest(src)
+                    after_src = tree_digest(real_src)
                     after_dest = tree_digest(dest)
                     part["outcomes"]["%s n=%d" % (cmd, min(len(expected), 6))] += 1
                     if set(after_dest) != set(expected):
@@ -159,7 +167,7 @@ def run_tree(args):
                                     bad({"class": "not_a_hard_link", "cmd": cmd}, "%s -> %s" % (srel, drel), **q)
                                     break
                             else:
-                                if a[0] != "link" or os.path.realpath(os.path.join(dest, drel)) != os.path.realpath(os.path.join(src, srel)):
+                                if a[0] != "link" or os.path.realpath(os.path.join(dest, drel)) != os.path.realpath(os.path.join(real_src, srel)):
                                     bad({"class": "not_a_symlink_to_source", "cmd": cmd}, "%s -> %s %r" % (srel, drel, a), **q)
                                     break
                     if cmd == "mv":
@@ -169,7 +177,9 @@ def run_tree(args):
                                 sorted(set(after_src) - set(want_src))[:3], sorted(set(want_src) - set(after_src))[:3]), **q)
                     elif {k: v[:2] for k, v in after_src.items()} != {k: v[:2] for k, v in before.items()}:
                         bad({"class": "source_changed", "cmd": cmd}, "source changed by %s" % cmd, **q)
-                    core.rm(src)
+                    if src != real_src:
+                        os.unlink(src)
+                    core.rm(real_src)
                     core.rm(dest)
         part["traces"] += 1
         part["nontrivial"].add(core.canon(spec))
